@@ -72,6 +72,23 @@ class UserFlaky(Exception):
 USER = {c.__name__: c for c in (UserErr, UserValueErr, UserKeyErr, UserKwOnly, UserArity,
                                 UserRewrite, UserBase, UserFlaky)}
 
+
+def _twin():
+    class UserErr(Exception):
+        """a DIFFERENT class that happens to be called UserErr too (another module's error): nothing
+        learnt about, or built for, one of them may be applied to the other"""
+        _sim_tag = 'UserErr#twin'
+
+        def __init__(self, msg):
+            super().__init__(msg)
+            self.origin = 'twin:' + str(msg)
+    UserErr.__qualname__ = 'UserErr'
+    UserErr.__module__ = 'glomsim.twin'
+    return UserErr
+
+
+TWINS = {'UserErrTwin': _twin()}
+
 BASE_ONLY = ('KeyboardInterrupt', 'SystemExit', 'GeneratorExit', 'UserBase')
 GLOM_USER = ('UGlomErr', 'UGlomErrInit', 'UGlomKwOnly', 'UGlomArity', 'UGlomMixed', 'UGlomRewrite',
              'UGlomLookup', 'UGlomMultiline')
@@ -153,6 +170,8 @@ class Catalogue:
             return BUILTIN[name]
         if name in USER:
             return USER[name]
+        if name in TWINS:
+            return TWINS[name]
         if name in self.glom_user:
             return self.glom_user[name]
         # glom's own classes (e.g. 'PathAccessError') for skip_exc sets
